@@ -110,24 +110,20 @@ theorem createProp_refines (d : MProp) (hd : WFDesc d) : absProp (createProp d) 
       (cases de <;> cases dc <;> rfl)
 
 /-- **[[DefineOwnProperty]] refines §8.12.9** for every object, name and descriptor: same
-    accept/reject and the abstraction of the resulting object is the ES5 result, outside
-    `Dev_generic_loses_writable` and `Dev_acc_to_data_keeps_accessor`. -/
-theorem defineOwnProperty_refines (o : MObj) (n : Name) (d : MProp) (ho : WFObj o) (hd : WFDesc d)
-    (h1 : devGenericAt o n d = false) (h2 : devAccToDataAt o n d = false) :
+    accept/reject and the abstraction of the resulting object is the ES5 result – no region excluded. -/
+theorem defineOwnProperty_refines (o : MObj) (n : Name) (d : MProp) (ho : WFObj o) (hd : WFDesc d) :
     (defineOwn o n d).map absObj = Spec.defineOwn (absObj o) n (absDesc d) := by
   obtain ⟨proto, ext, props⟩ := o
   rw [sDefineOwn_eq]
-  simp only [devGenericAt, devAccToDataAt] at h1 h2
-  rw [defineOwn_eq] at h1 h2 ⊢
+  rw [defineOwn_eq]
   simp only [absObj, alookup_absProps]
   cases hl : alookup n props with
   | none =>
     simp only [Option.map]
     cases ext <;> simp [absObj, absProps_aupsert, createProp_refines d hd]
   | some prop =>
-    rw [hl] at h1 h2
-    simp only [Option.isSome_map] at h1 h2
-    have hg := defineProp_refines prop d (ho _ (alookup_mem hl)) hd h1 h2
+    have hg : PropGoal prop d := defineProp_refines prop d (ho _ (alookup_mem hl)) hd
+    simp only [PropGoal] at hg
     simp only [Option.map_some]
     have hl' : alookup n (absProps props) = some (absProp prop) := by rw [alookup_absProps, hl]; rfl
     cases hm : defineProp prop d with
@@ -178,11 +174,9 @@ theorem toPropertyDescriptor_wf (d : DescArg) (m : MProp) (h : OttoVerif.C07.toP
 def WFHeap (h : MHeap) : Prop := ∀ (a : Nat) (o : MObj), h[a]? = some o → WFObj o
 
 /-- **Object.defineProperty as a whole step** (builtin_object.go:117 vs §15.2.3.6): from any
-    well-formed heap, outside the two single-property deviation regions, otto's step and the ES5
+    well-formed heap otto's step and the ES5
     step agree on the outcome (ok / TypeError) and the abstraction of otto's heap is the ES5 heap. -/
-theorem step_defineProperty_refines (h : MHeap) (a : Addr) (n : Name) (d : DescArg) (hw : WFHeap h)
-    (hdev : ∀ o desc, h[a]? = some o → OttoVerif.C07.toPropertyDescriptor d = some desc →
-      devGenericAt o n desc = false ∧ devAccToDataAt o n desc = false) :
+theorem step_defineProperty_refines (h : MHeap) (a : Addr) (n : Name) (d : DescArg) (hw : WFHeap h) :
     absHeap (step h (.defn a n d)).1 = (Spec.step (absHeap h) (.defn a n d)).1 ∧
     (step h (.defn a n d)).2 = (Spec.step (absHeap h) (.defn a n d)).2 := by
   have hget : (absHeap h)[a]? = (h[a]?).map absObj := by simp [absHeap]
@@ -196,8 +190,7 @@ theorem step_defineProperty_refines (h : MHeap) (a : Addr) (n : Name) (d : DescA
     | some desc =>
       rw [hd] at hpd
       simp only [Option.map_some] at hpd
-      obtain ⟨h1, h2⟩ := hdev o desc ho hd
-      have hr := defineOwnProperty_refines o n desc (hw a o ho) (toPropertyDescriptor_wf d desc hd) h1 h2
+      have hr := defineOwnProperty_refines o n desc (hw a o ho) (toPropertyDescriptor_wf d desc hd)
       simp only [Option.map_some, ← hpd]
       cases hm : defineOwn o n desc with
       | none => rw [hm] at hr; simp only [Option.map_none] at hr; simp [← hr]
@@ -288,11 +281,10 @@ theorem defineOwn_lift (o : MObj) (n : Name) (d : MProp) (pd : PD) (prop : MProp
           simp only [Option.getD] at hg
           simp only [absObj, absProps_aupsert, hg]
 
-/-- [[DefineOwnProperty]] keeps every stored property well formed, outside `acc_to_data_keeps_accessor` -/
+/-- [[DefineOwnProperty]] keeps every stored property well formed (unconditionally) -/
 theorem defineOwn_wf (o o' : MObj) (n : Name) (d : MProp) (ho : WFObj o) (hd : WFDescW d)
-    (h2 : devAccToDataAt o n d = false) (h : defineOwn o n d = some o') : WFObj o' := by
-  simp only [devAccToDataAt] at h2
-  rw [defineOwn_eq] at h h2
+    (h : defineOwn o n d = some o') : WFObj o' := by
+  rw [defineOwn_eq] at h
   cases hl : alookup n o.props with
   | none =>
     rw [hl] at h
@@ -307,8 +299,8 @@ theorem defineOwn_wf (o o' : MObj) (n : Name) (d : MProp) (ho : WFObj o) (hd : W
       · subst h; exact createProp_wf d hd
       · exact ho kp h
   | some prop =>
-    rw [hl] at h h2
-    simp only [Option.isSome_map] at h h2
+    rw [hl] at h
+    simp only [Option.isSome_map] at h
     cases hm : defineProp prop d with
     | none => rw [hm] at h; simp at h
     | some r =>
@@ -321,10 +313,7 @@ theorem defineOwn_wf (o o' : MObj) (n : Name) (d : MProp) (ho : WFObj o) (hd : W
         intro kp hkp
         rcases mem_aupsert hkp with h | h
         · subst h
-          refine defineProp_wf prop d p (ho _ (alookup_mem hl)) hd ?_ hm
-          rw [hm] at h2
-          simp only [devA2D, hm]
-          exact h2
+          exact defineProp_wf prop d p (ho _ (alookup_mem hl)) hd hm
         · exact ho kp h
 
 /-! ## prototype chains: [[GetProperty]] / [[Get]] / [[HasProperty]] -/
@@ -651,7 +640,6 @@ theorem putNew_refines (o : MObj) (n : Name) (v : Val) (ho : WFObj o) (hl : aloo
     (defineOwn o n ⟨.val v, ⟨.on, .on, .on⟩⟩).map absObj =
       Spec.defineOwn (absObj o) n { noPD with value := some v, writable := some true, enumerable := some true, configurable := some true } := by
   have := defineOwnProperty_refines o n ⟨.val v, ⟨.on, .on, .on⟩⟩ ho trivial
-    (by simp [devGenericAt, hl]) (by simp [devAccToDataAt, hl])
   simpa [absDesc, topt, noPD] using this
 
 set_option hygiene false in
@@ -809,14 +797,10 @@ theorem put_refines (h : MHeap) (strict : Bool) (a : Addr) (n : Name) (v : Val) 
                 | false => simp
                 | true => have := hd rfl; simp [devStrict, ho, hcp] at this
 
-theorem devAccToDataAt_val (o : MObj) (n : Name) (v : Val) (m : Mode) : devAccToDataAt o n ⟨.val v, m⟩ = false := by
-  simp only [devAccToDataAt]
-  cases alookup n o.props <;> simp
-
 /-- a successful define on object `a` keeps the heap invariants -/
 theorem inv_define (h : MHeap) (a : Nat) (o o' : MObj) (n : Name) (d : MProp) (hi : Inv h) (ho : h[a]? = some o)
-    (hd : WFDescW d) (h2 : devAccToDataAt o n d = false) (hm : defineOwn o n d = some o') : Inv (h.set a o') :=
-  inv_set h a o o' hi ho (defineOwn_wf o o' n d (hi.1 a o ho) hd h2 hm) (defineOwn_shape o o' n d hm).1
+    (hd : WFDescW d) (hm : defineOwn o n d = some o') : Inv (h.set a o') :=
+  inv_set h a o o' hi ho (defineOwn_wf o o' n d (hi.1 a o ho) hd hm) (defineOwn_shape o o' n d hm).1
 
 theorem put_inv (h : MHeap) (strict : Bool) (a : Addr) (n : Name) (v : Val) (hi : Inv h) :
     Inv (step h (.put strict a n v)).1 := by
@@ -831,10 +815,10 @@ theorem put_inv (h : MHeap) (strict : Bool) (a : Addr) (n : Name) (v : Val) (hi 
     · rename_i prop _
       cases hm : defineOwn o n { prop with value := .val v } with
       | none => exact hi
-      | some o' => exact inv_define h a o o' n ⟨.val v, prop.mode⟩ hi ho (by simp [WFDescW]) (devAccToDataAt_val o n v _) hm
+      | some o' => exact inv_define h a o o' n ⟨.val v, prop.mode⟩ hi ho (by simp [WFDescW]) hm
     · cases hm : defineOwn o n ⟨.val v, ⟨.on, .on, .on⟩⟩ with
       | none => exact hi
-      | some o' => exact inv_define h a o o' n ⟨.val v, ⟨.on, .on, .on⟩⟩ hi ho (by simp [WFDescW]) (devAccToDataAt_val o n v _) hm
+      | some o' => exact inv_define h a o o' n ⟨.val v, ⟨.on, .on, .on⟩⟩ hi ho (by simp [WFDescW]) hm
 
 /-! ## Object.freeze / Object.seal (§15.2.3.8, §15.2.3.9) -/
 
@@ -942,11 +926,6 @@ theorem freezeDesc_wfw (prop : MProp) (hp : WFProp prop) : WFDescW (freezeDesc p
     subst hw
     cases e <;> cases c <;> simp [WFDescW, freezeDesc, MProp.isDataDescriptor, tb, tset]
 
-theorem devAccToDataAt_sameValue (o : MObj) (n : Name) (prop d : MProp) (hl : alookup n o.props = some prop)
-    (hv : d.value = prop.value) : devAccToDataAt o n d = false := by
-  simp only [devAccToDataAt, hl, hv]
-  cases prop.value <;> simp
-
 /-- one iteration of otto's freeze loop on a present property -/
 def freezeStep (o : MObj) (n : Name) (prop : MProp) : Option MObj :=
   if (freezeDesc prop).2 then defineOwn o n (freezeDesc prop).1 else some o
@@ -993,8 +972,7 @@ theorem freezeStep_wf (o o' : MObj) (n : Name) (prop : MProp) (ho : WFObj o) (hl
   simp only [freezeStep] at h
   split at h
   · have hs := defineOwn_shape o o' n _ h
-    refine ⟨defineOwn_wf o o' n _ ho (freezeDesc_wfw prop (ho _ (alookup_mem hl)))
-      (devAccToDataAt_sameValue o n prop _ hl (freezeDesc_value prop)) h, hs.1, hs.2.1, ?_⟩
+    refine ⟨defineOwn_wf o o' n _ ho (freezeDesc_wfw prop (ho _ (alookup_mem hl))) h, hs.1, hs.2.1, ?_⟩
     rcases hs.2.2 with hk | ⟨_, hn, _⟩
     · exact hk
     · rw [hl] at hn; cases hn
@@ -1147,8 +1125,7 @@ theorem sealStep_wf (o o' : MObj) (n : Name) (prop : MProp) (ho : WFObj o) (hl :
   simp only [sealStep] at h
   split at h
   · have hs := defineOwn_shape o o' n _ h
-    refine ⟨defineOwn_wf o o' n _ ho (sealDesc_wfw prop (ho _ (alookup_mem hl)))
-      (devAccToDataAt_sameValue o n prop _ hl (sealDesc_value prop)) h, hs.1, hs.2.1, ?_⟩
+    refine ⟨defineOwn_wf o o' n _ ho (sealDesc_wfw prop (ho _ (alookup_mem hl))) h, hs.1, hs.2.1, ?_⟩
     rcases hs.2.2 with hk | ⟨_, hn, _⟩
     · exact hk
     · rw [hl] at hn; cases hn
@@ -1198,11 +1175,9 @@ theorem seal_refines (h : MHeap) (a : Addr) (hi : Inv h) :
 /-! ## Object.defineProperty / defineProperties / create (§15.2.3.5-7) -/
 
 /-- Object.defineProperty in `StepRefines` form, with the invariants -/
-theorem defn_refines (h : MHeap) (a : Addr) (n : Name) (d : DescArg) (hi : Inv h)
-    (hdev : ∀ o desc, h[a]? = some o → OttoVerif.C07.toPropertyDescriptor d = some desc →
-      devGenericAt o n desc = false ∧ devAccToDataAt o n desc = false) :
+theorem defn_refines (h : MHeap) (a : Addr) (n : Name) (d : DescArg) (hi : Inv h) :
     StepRefines h (.defn a n d) ∧ Inv (step h (.defn a n d)).1 := by
-  refine ⟨step_defineProperty_refines h a n d hi.1 hdev, ?_⟩
+  refine ⟨step_defineProperty_refines h a n d hi.1, ?_⟩
   simp only [step]
   cases ho : h[a]? with
   | none => exact hi
@@ -1215,7 +1190,7 @@ theorem defn_refines (h : MHeap) (a : Addr) (n : Name) (d : DescArg) (hi : Inv h
       cases hm : defineOwn o n desc with
       | none => exact hi
       | some o' =>
-        exact inv_define h a o o' n desc hi ho (WFDesc.weak (toPropertyDescriptor_wf d desc hd)) (hdev o desc ho hd).2 hm
+        exact inv_define h a o o' n desc hi ho (WFDesc.weak (toPropertyDescriptor_wf d desc hd)) hm
 
 /-- all descriptors of the list convert -/
 def allConv (l : List (Name × DescArg)) : Prop := ∀ nd ∈ l, (OttoVerif.C07.toPropertyDescriptor nd.2).isSome = true
@@ -1282,92 +1257,127 @@ theorem defineList_throws (l : List (Name × DescArg)) (h : ¬ allConv l) : ∀ 
       | some o' => exact ih this o'
 
 /-- **the define-one-at-a-time loop refines "convert all, then define all"** when every
-    descriptor converts (i.e. outside `defineProperties_not_atomic`) and no single definition is
-    in a one-property region -/
+    descriptor converts -/
 theorem defineList_refines : ∀ (l : List (Name × DescArg)) (o : MObj), WFObj o → allConv l →
-    devList o l = (false, false) →
     (absObj (defineList o l).1, (defineList o l).2) = defineAll (absObj o) (convOf l) ∧
     WFObj (defineList o l).1 ∧ (defineList o l).1.proto = o.proto := by
   intro l
   induction l with
-  | nil => intro o ho _ _; exact ⟨rfl, ho, rfl⟩
+  | nil => intro o ho _; exact ⟨rfl, ho, rfl⟩
   | cons nd t ih =>
     obtain ⟨n, d⟩ := nd
-    intro o ho hall hdev
+    intro o ho hall
     have h1 := hall (n, d) List.mem_cons_self
     have hall' : allConv t := fun x hx => hall x (List.mem_cons_of_mem _ hx)
     cases hd : OttoVerif.C07.toPropertyDescriptor d with
     | none => rw [hd] at h1; cases h1
     | some m =>
-      simp only [defineList, convOf, defineAll, hd, devList] at hdev ⊢
+      simp only [defineList, convOf, defineAll, hd]
       cases hm : defineOwn o n m with
       | none =>
         have hr := defineOwnProperty_refines o n m ho (toPropertyDescriptor_wf d m hd)
-          (by simp only [devGenericAt, hm]; cases alookup n o.props <;> simp) (by simp only [devAccToDataAt, hm]; cases alookup n o.props <;> simp)
         rw [hm] at hr
         simp only [Option.map_none] at hr
         simp only [← hr]
         refine ⟨?_, ho, ?_⟩ <;> first | rfl | trivial
       | some o' =>
-        rw [hm] at hdev
-        simp only [Prod.mk.injEq, Bool.or_eq_false_iff] at hdev
-        obtain ⟨⟨hg, hg'⟩, ⟨ha, ha'⟩⟩ := hdev
-        have hr := defineOwnProperty_refines o n m ho (toPropertyDescriptor_wf d m hd) hg ha
+        have hr := defineOwnProperty_refines o n m ho (toPropertyDescriptor_wf d m hd)
         rw [hm] at hr
         simp only [Option.map_some] at hr
         simp only [← hr]
-        have hw' := defineOwn_wf o o' n m ho (WFDesc.weak (toPropertyDescriptor_wf d m hd)) ha hm
-        obtain ⟨i1, i2, i3⟩ := ih o' hw' hall' (Prod.ext hg' ha')
+        have hw' := defineOwn_wf o o' n m ho (WFDesc.weak (toPropertyDescriptor_wf d m hd)) hm
+        obtain ⟨i1, i2, i3⟩ := ih o' hw' hall'
         exact ⟨i1, i2, i3.trans (defineOwn_shape o o' n m hm).1⟩
 
-theorem allConv_of_notAtomic (nd : Name × DescArg) (t : List (Name × DescArg))
-    (h : devNotAtomic (nd :: t) = false) : allConv t := by
-  intro x hx
-  simp only [devNotAtomic, List.any_eq_false] at h
-  have := h x hx
-  cases hc : OttoVerif.C07.toPropertyDescriptor x.2 with
-  | none => simp [hc] at this
-  | some m => rfl
+/-- the converted list otto builds when every descriptor converts -/
+def mconv : List (Name × DescArg) → List (Name × MProp)
+  | [] => []
+  | (n, d) :: t => (n, match OttoVerif.C07.toPropertyDescriptor d with | some m => m | none => ⟨.nil, ⟨.unset, .unset, .unset⟩⟩) :: mconv t
 
-/-- **Object.defineProperties refines §15.2.3.7** outside `defineProperties_not_atomic` and the
-    one-property regions, and keeps the invariants -/
-theorem defs_refines (h : MHeap) (a : Addr) (l : List (Name × DescArg)) (hi : Inv h)
-    (hdev : ∀ o, h[a]? = some o → devList o l = (false, false) ∧ devNotAtomic l = false) :
+theorem convertAll_all (l : List (Name × DescArg)) (h : allConv l) : convertAll l = some (mconv l) := by
+  induction l with
+  | nil => rfl
+  | cons nd t ih =>
+    obtain ⟨n, d⟩ := nd
+    have h1 := h (n, d) List.mem_cons_self
+    have h2 := ih (fun x hx => h x (List.mem_cons_of_mem _ hx))
+    cases hd : OttoVerif.C07.toPropertyDescriptor d with
+    | none => rw [hd] at h1; cases h1
+    | some m => simp only [convertAll, hd, h2, mconv]
+
+theorem convertAll_notAll (l : List (Name × DescArg)) (h : ¬ allConv l) : convertAll l = none := by
+  induction l with
+  | nil => exact absurd (fun _ hx => by cases hx) h
+  | cons nd t ih =>
+    obtain ⟨n, d⟩ := nd
+    cases hd : OttoVerif.C07.toPropertyDescriptor d with
+    | none => simp only [convertAll, hd]
+    | some m =>
+      have : ¬ allConv t := by
+        intro ht
+        apply h
+        intro x hx
+        rcases List.mem_cons.1 hx with hx | hx
+        · subst hx; simp [hd]
+        · exact ht x hx
+      simp only [convertAll, hd, ih this]
+
+/-- when every descriptor converts, "convert all, then define" is the one-at-a-time loop -/
+theorem defineConverted_mconv : ∀ (l : List (Name × DescArg)) (o : MObj), allConv l →
+    defineConverted o (mconv l) = defineList o l := by
+  intro l
+  induction l with
+  | nil => intro o _; rfl
+  | cons nd t ih =>
+    obtain ⟨n, d⟩ := nd
+    intro o hall
+    have h1 := hall (n, d) List.mem_cons_self
+    cases hd : OttoVerif.C07.toPropertyDescriptor d with
+    | none => rw [hd] at h1; cases h1
+    | some m =>
+      simp only [mconv, defineConverted, defineList, hd]
+      cases defineOwn o n m with
+      | none => rfl
+      | some o' => exact ih o' (fun x hx => hall x (List.mem_cons_of_mem _ hx))
+
+theorem list_set_self (h : MHeap) (a : Nat) (o : MObj) (ho : h[a]? = some o) : h.set a o = h := by
+  apply List.ext_getElem?
+  intro i
+  by_cases hi : a = i
+  · subst hi
+    have ha : a < h.length := by
+      rcases Nat.lt_or_ge a h.length with hlt | hge
+      · exact hlt
+      · rw [List.getElem?_eq_none hge] at ho; cases ho
+    rw [List.getElem?_set]
+    simp only [if_true, ha]
+    exact ho.symm
+  · simp [List.getElem?_set, hi]
+
+/-- **Object.defineProperties refines §15.2.3.7** (all descriptors are converted before any property
+    is defined), and keeps the invariants -/
+theorem defs_refines (h : MHeap) (a : Addr) (l : List (Name × DescArg)) (hi : Inv h) :
     StepRefines h (.defs a l) ∧ Inv (step h (.defs a l)).1 := by
   simp only [StepRefines, step, Spec.step, absHeap_get]
   cases ho : h[a]? with
   | none => exact ⟨⟨rfl, rfl⟩, hi⟩
   | some o =>
-    obtain ⟨hd1, hd2⟩ := hdev o ho
     simp only [Option.map_some]
     by_cases hall : allConv l
-    · obtain ⟨h1, h2, h3⟩ := defineList_refines l o (hi.1 a o ho) hall hd1
+    · obtain ⟨h1, h2, h3⟩ := defineList_refines l o (hi.1 a o ho) hall
       have hdp : Spec.defineProperties (absObj o) l = (absObj (defineList o l).1, (defineList o l).2) := by
         simp only [Spec.defineProperties, convertList_all l hall, h1]
-      simp only [hdp]
+      simp only [hdp, convertAll_all l hall, defineConverted_mconv l o hall]
       cases hr : defineList o l with
       | mk o' b =>
         rw [hr] at h2 h3
         exact ⟨by cases b <;> simp [absHeap_set], inv_set h a o o' hi ho h2 h3⟩
-    · -- some descriptor does not convert: outside the region it can only be the first one
-      cases l with
-      | nil => exact absurd (fun _ hx => by cases hx) hall
-      | cons nd t =>
-        obtain ⟨n, d⟩ := nd
-        have ht := allConv_of_notAtomic (n, d) t hd2
-        cases hc : OttoVerif.C07.toPropertyDescriptor d with
-        | some m =>
-          exfalso; apply hall
-          intro x hx
-          rcases List.mem_cons.1 hx with hx | hx
-          · subst hx; simp [hc]
-          · exact ht x hx
-        | none =>
-          have hdp : Spec.defineProperties (absObj o) ((n, d) :: t) = (absObj o, true) := by
-            simp only [Spec.defineProperties, convertList_notAll _ hall]
-          simp only [hdp, defineList, hc]
-          refine ⟨by simp [absHeap_set], ?_⟩
-          exact inv_set h a o o hi ho (hi.1 a o ho) rfl
+    · have hdp : Spec.defineProperties (absObj o) l = (absObj o, true) := by
+        simp only [Spec.defineProperties, convertList_notAll _ hall]
+      simp only [hdp, convertAll_notAll l hall]
+      have hs : (absHeap h).set a (absObj o) = absHeap h := by
+        rw [← absHeap_set, list_set_self h a o ho]
+      exact ⟨by simp [hs], hi⟩
 
 theorem inv_append (h : MHeap) (o' : MObj) (hi : Inv h) (hw : WFObj o')
     (hp : ∀ p : Nat, o'.proto = some p → p < h.length) : Inv (h ++ [o']) := by
@@ -1394,8 +1404,7 @@ theorem inv_append (h : MHeap) (o' : MObj) (hi : Inv h) (hw : WFObj o')
       | succ k => rw [hb'] at hq; simp at hq
 
 theorem create_core (h : MHeap) (p : Option Addr) (l : List (Name × DescArg)) (hi : Inv h)
-    (hp : ∀ q : Nat, p = some q → q < h.length)
-    (hdev : devList ⟨p, true, []⟩ l = (false, false)) :
+    (hp : ∀ q : Nat, p = some q → q < h.length) :
     (absHeap (if (defineList ⟨p, true, []⟩ l).2 = true then (h, Outcome.typeError, ([] : List Call))
         else (h ++ [(defineList ⟨p, true, []⟩ l).1], Outcome.ok, [])).1
       = (if (Spec.defineProperties ⟨p, true, []⟩ l).2 = true then (absHeap h, Outcome.typeError, ([] : List Call))
@@ -1408,7 +1417,7 @@ theorem create_core (h : MHeap) (p : Option Addr) (l : List (Name × DescArg)) (
         else (h ++ [(defineList ⟨p, true, []⟩ l).1], Outcome.ok, [])).1 := by
   by_cases hall : allConv l
   · have hw0 : WFObj (⟨p, true, []⟩ : MObj) := fun kp hkp => by cases hkp
-    obtain ⟨h1, h2, h3⟩ := defineList_refines l ⟨p, true, []⟩ hw0 hall hdev
+    obtain ⟨h1, h2, h3⟩ := defineList_refines l ⟨p, true, []⟩ hw0 hall
     have habs : absObj (⟨p, true, []⟩ : MObj) = ⟨p, true, []⟩ := rfl
     have hdp : Spec.defineProperties (⟨p, true, []⟩ : SObj) l = (absObj (defineList ⟨p, true, []⟩ l).1, (defineList ⟨p, true, []⟩ l).2) := by
       simp only [Spec.defineProperties, convertList_all l hall, h1, ← habs]
@@ -1430,18 +1439,17 @@ theorem create_core (h : MHeap) (p : Option Addr) (l : List (Name × DescArg)) (
     simp only [this]
     exact ⟨⟨rfl, rfl⟩, hi⟩
 
-/-- **Object.create refines §15.2.3.5** outside the one-property regions (a failed conversion
-    discards the new object on both sides), and keeps the invariants -/
-theorem create_refines (h : MHeap) (p : Option Addr) (l : List (Name × DescArg)) (hi : Inv h)
-    (hdev : devList ⟨p, true, []⟩ l = (false, false)) :
+/-- **Object.create refines §15.2.3.5** (a failed conversion discards the new object on both sides),
+    and keeps the invariants -/
+theorem create_refines (h : MHeap) (p : Option Addr) (l : List (Name × DescArg)) (hi : Inv h) :
     StepRefines h (.create p l) ∧ Inv (step h (.create p l)).1 := by
   have hlen : (absHeap h).length = h.length := by simp [absHeap]
   simp only [StepRefines, step, Spec.step, hlen]
   cases p with
-  | none => simpa using create_core h none l hi (fun q hq => by cases hq) hdev
+  | none => simpa using create_core h none l hi (fun q hq => by cases hq)
   | some pa =>
     by_cases hpa : pa < h.length
-    · simpa [hpa] using create_core h (some pa) l hi (fun q hq => by cases hq; exact hpa) hdev
+    · simpa [hpa] using create_core h (some pa) l hi (fun q hq => by cases hq; exact hpa)
     · simp only [hpa, if_false]; exact ⟨⟨rfl, rfl⟩, hi⟩
 
 /-! ## observations -/
@@ -1607,48 +1615,28 @@ theorem append_nil_iff {α} (a b : List α) : a ++ b = [] ↔ a = [] ∧ b = [] 
 theorem ite_singleton_nil (c : Bool) (s : String) : (if c = true then [s] else []) = [] ↔ c = false := by
   cases c <;> simp
 
-/-- **every modelled operation**: a step from a heap satisfying the invariants that hits no
-    deviation region refines the ES5 step (same heap under abstraction, same outcome / TypeError,
+/-- **every modelled operation**: a step from a heap satisfying the invariants that is not in
+    `strict_ignored` (the only region left) refines the ES5 step (same heap under abstraction, same outcome / TypeError,
     same setter calls) and re-establishes the invariants -/
 theorem step_refines (h : MHeap) (op : Op) (hi : Inv h) (hd : devStep h op (step h op).1 = []) :
     StepRefines h op ∧ Inv (step h op).1 := by
+  have hs : devStrict h op = false := by
+    simp only [devStep] at hd
+    cases hc : devStrict h op with
+    | false => rfl
+    | true => rw [hc] at hd; simp at hd
   rcases op with ⟨s, a, n, v⟩ | ⟨s, a, n⟩ | ⟨a, n, d⟩ | ⟨a, l⟩ | ⟨p, l⟩ | ⟨a⟩ | ⟨a⟩ | ⟨a⟩
-  · simp only [devStep, append_nil_iff, ite_singleton_nil] at hd
-    exact ⟨put_refines h s a n v hi hd.1.1.1, put_inv h s a n v hi⟩
-  · simp only [devStep, append_nil_iff, ite_singleton_nil] at hd
-    exact ⟨delete_refines h s a n hd.1.1.1, delete_inv h s a n hi⟩
-  · simp only [devStep, append_nil_iff, ite_singleton_nil] at hd
-    have hdev : ∀ o desc, h[a]? = some o → OttoVerif.C07.toPropertyDescriptor d = some desc →
-        devGenericAt o n desc = false ∧ devAccToDataAt o n desc = false := by
-      intro o desc ho hdesc
-      have h1 := hd.1.1.2
-      have h2 := hd.1.2
-      rw [ho, hdesc] at h1 h2
-      exact ⟨h1, h2⟩
-    have := defn_refines h a n d hi hdev
-    exact this
-  · simp only [devStep, append_nil_iff, ite_singleton_nil] at hd
-    have hdev : ∀ o, h[a]? = some o → devList o l = (false, false) ∧ devNotAtomic l = false := by
-      intro o ho
-      have h1 := hd.1.1.2
-      have h2 := hd.1.2
-      have h3 := hd.2
-      rw [ho] at h1 h2 h3
-      exact ⟨Prod.ext h1 h2, by simpa using h3⟩
-    have := defs_refines h a l hi hdev
-    exact this
-  · simp only [devStep, append_nil_iff, ite_singleton_nil] at hd
-    have := create_refines h p l hi (Prod.ext hd.1.1.2 hd.1.2)
-    exact this
-  · simp only [devStep, append_nil_iff, ite_singleton_nil] at hd
-    exact freeze_refines h a hi
-  · simp only [devStep, append_nil_iff, ite_singleton_nil] at hd
-    exact seal_refines h a hi
-  · simp only [devStep, append_nil_iff, ite_singleton_nil] at hd
-    exact ⟨preventExt_refines h a, preventExt_inv h a hi⟩
+  · exact ⟨put_refines h s a n v hi hs, put_inv h s a n v hi⟩
+  · exact ⟨delete_refines h s a n hs, delete_inv h s a n hi⟩
+  · exact defn_refines h a n d hi
+  · exact defs_refines h a l hi
+  · exact create_refines h p l hi
+  · exact freeze_refines h a hi
+  · exact seal_refines h a hi
+  · exact ⟨preventExt_refines h a, preventExt_inv h a hi⟩
 
 /-- **history_refines**: any finite history of the modelled operations, started on a heap satisfying
-    the invariants, that stays outside every deviation region, is observationally equal to ES5 –
+    the invariants, that stays outside the one remaining region `strict_ignored`, is observationally equal to ES5 –
     same outcome (incl. TypeError) and setter calls at every step and the same full observation
     vector after every step. -/
 theorem history_refines_from : ∀ (ops : List Op) (h : MHeap), Inv h → devRun h ops = [] →
@@ -1872,30 +1860,69 @@ theorem evolves_delete (o : MObj) (n : Name) (prop : MProp) (hl : alookup n o.pr
       rw [hc] at hcm; cases hcm
     exact ⟨p, by simp only [alookup_aerase m n _ hmn]; exact hm, PStable.refl p hcm⟩
 
-/-- the define-one-at-a-time loop: allowed evolution and well-formedness, outside `acc_to_data_keeps_accessor` -/
-theorem defineList_evolves : ∀ (l : List (Name × DescArg)) (o : MObj), WFObj o → (devList o l).2 = false →
+/-- the define-one-at-a-time loop (Object.create): allowed evolution and well-formedness -/
+theorem defineList_evolves : ∀ (l : List (Name × DescArg)) (o : MObj), WFObj o →
     Evolves o (defineList o l).1 ∧ WFObj (defineList o l).1 := by
   intro l
   induction l with
-  | nil => intro o ho _; exact ⟨Evolves.refl o, ho⟩
+  | nil => intro o ho; exact ⟨Evolves.refl o, ho⟩
   | cons nd t ih =>
     obtain ⟨n, d⟩ := nd
-    intro o ho hdev
-    simp only [defineList, devList] at hdev ⊢
+    intro o ho
+    simp only [defineList]
     cases hd : OttoVerif.C07.toPropertyDescriptor d with
     | none => exact ⟨Evolves.refl o, ho⟩
     | some m =>
-      rw [hd] at hdev
-      simp only at hdev ⊢
+      simp only
       cases hm : defineOwn o n m with
       | none => exact ⟨Evolves.refl o, ho⟩
       | some o' =>
-        rw [hm] at hdev
-        simp only [Bool.or_eq_false_iff] at hdev
         have hwd := toPropertyDescriptor_wf d m hd
-        have hw' := defineOwn_wf o o' n m ho (WFDesc.weak hwd) hdev.1 hm
-        obtain ⟨e2, w2⟩ := ih o' hw' hdev.2
+        have hw' := defineOwn_wf o o' n m ho (WFDesc.weak hwd) hm
+        obtain ⟨e2, w2⟩ := ih o' hw'
         exact ⟨(defineOwn_evolves o o' n m ho (Or.inl hwd) hm).trans e2, w2⟩
+
+theorem convertAll_wf : ∀ (l : List (Name × DescArg)) (ds : List (Name × MProp)), convertAll l = some ds →
+    ∀ nm, nm ∈ ds → WFDesc nm.2 := by
+  intro l
+  induction l with
+  | nil => intro ds h nm hnm; simp only [convertAll, Option.some.injEq] at h; subst h; cases hnm
+  | cons nd t ih =>
+    obtain ⟨n, d⟩ := nd
+    intro ds h nm hnm
+    simp only [convertAll] at h
+    cases hd : OttoVerif.C07.toPropertyDescriptor d with
+    | none => rw [hd] at h; cases h
+    | some m =>
+      rw [hd] at h
+      simp only at h
+      cases hr : convertAll t with
+      | none => rw [hr] at h; cases h
+      | some r =>
+        rw [hr] at h
+        simp only [Option.some.injEq] at h
+        subst h
+        rcases List.mem_cons.1 hnm with e | e
+        · subst e; exact toPropertyDescriptor_wf d m hd
+        · exact ih r hr nm e
+
+/-- Object.defineProperties step 7: allowed evolution and well-formedness -/
+theorem defineConverted_evolves : ∀ (ds : List (Name × MProp)) (o : MObj), WFObj o → (∀ nm, nm ∈ ds → WFDesc nm.2) →
+    Evolves o (defineConverted o ds).1 ∧ WFObj (defineConverted o ds).1 := by
+  intro ds
+  induction ds with
+  | nil => intro o ho _; exact ⟨Evolves.refl o, ho⟩
+  | cons nm t ih =>
+    obtain ⟨n, m⟩ := nm
+    intro o ho hwf
+    simp only [defineConverted]
+    have hwd : WFDesc m := hwf (n, m) List.mem_cons_self
+    cases hm : defineOwn o n m with
+    | none => exact ⟨Evolves.refl o, ho⟩
+    | some o' =>
+      have hw' := defineOwn_wf o o' n m ho (WFDesc.weak hwd) hm
+      obtain ⟨e2, w2⟩ := ih o' hw' (fun x hx => hwf x (List.mem_cons_of_mem _ hx))
+      exact ⟨(defineOwn_evolves o o' n m ho (Or.inl hwd) hm).trans e2, w2⟩
 
 theorem freezeStep_evolves (o o' : MObj) (n : Name) (prop : MProp) (ho : WFObj o) (hl : alookup n o.props = some prop)
     (h : freezeStep o n prop = some o') : Evolves o o' := by
@@ -1945,19 +1972,9 @@ theorem sealLoop_evolves : ∀ (ns : List Name) (o : MObj), WFObj o → Evolves 
       | some o' =>
         exact (sealStep_evolves o o' n prop ho hl hs).trans (ih o' (sealStep_wf o o' n prop ho hl hs).1)
 
-/-- the `acc_to_data_keeps_accessor` flag of one step (the second component computed in `Driver.devStep`) -/
-def a2dOf (h : MHeap) : Op → Bool
-  | .defn a n d =>
-    (match h[a]?, OttoVerif.C07.toPropertyDescriptor d with
-     | some o, some desc => devAccToDataAt o n desc
-     | _, _ => false)
-  | .defs a l => (match h[a]? with | some o => (devList o l).2 | none => false)
-  | .create p l => (devList ⟨p, true, []⟩ l).2
-  | _ => false
-
 /-- **every operation is an allowed evolution of every object** and keeps the heap invariants –
-    in ALL regions except `acc_to_data_keeps_accessor` (which breaks well-formedness) -/
-theorem step_evolves (h : MHeap) (op : Op) (hi : Inv h) (ha : a2dOf h op = false) :
+    unconditionally (also for the strict-mode operations otto treats as sloppy) -/
+theorem step_evolves (h : MHeap) (op : Op) (hi : Inv h) :
     HEvolves h (step h op).1 ∧ Inv (step h op).1 := by
   rcases op with ⟨s, a, n, v⟩ | ⟨s, a, n⟩ | ⟨a, n, d⟩ | ⟨a, l⟩ | ⟨p, l⟩ | ⟨a⟩ | ⟨a⟩ | ⟨a⟩
   · -- put
@@ -1995,7 +2012,6 @@ theorem step_evolves (h : MHeap) (op : Op) (hi : Inv h) (ha : a2dOf h op = false
           exact hevolves_set h a o _ ho (evolves_delete o n prop hl hc)
         · exact HEvolves.refl h
   · -- defineProperty
-    simp only [a2dOf] at ha
     simp only [step]
     cases ho : h[a]? with
     | none => exact ⟨HEvolves.refl h, hi⟩
@@ -2005,26 +2021,26 @@ theorem step_evolves (h : MHeap) (op : Op) (hi : Inv h) (ha : a2dOf h op = false
       | none => exact ⟨HEvolves.refl h, hi⟩
       | some desc =>
         simp only []
-        rw [ho, hd] at ha
         cases hm : defineOwn o n desc with
         | none => exact ⟨HEvolves.refl h, hi⟩
         | some o' =>
           have hwd := toPropertyDescriptor_wf d desc hd
           exact ⟨hevolves_set h a o o' ho (defineOwn_evolves o o' n desc (hi.1 a o ho) (Or.inl hwd) hm),
-            inv_define h a o o' n desc hi ho (WFDesc.weak hwd) ha hm⟩
+            inv_define h a o o' n desc hi ho (WFDesc.weak hwd) hm⟩
   · -- defineProperties
-    simp only [a2dOf] at ha
     simp only [step]
     cases ho : h[a]? with
     | none => exact ⟨HEvolves.refl h, hi⟩
     | some o =>
-      rw [ho] at ha
-      obtain ⟨he, hw⟩ := defineList_evolves l o (hi.1 a o ho) ha
-      exact ⟨hevolves_set h a o _ ho he, inv_set h a o _ hi ho hw he.proto⟩
+      simp only []
+      cases hc : convertAll l with
+      | none => exact ⟨HEvolves.refl h, hi⟩
+      | some ds =>
+        obtain ⟨he, hw⟩ := defineConverted_evolves ds o (hi.1 a o ho) (convertAll_wf l ds hc)
+        exact ⟨hevolves_set h a o _ ho he, inv_set h a o _ hi ho hw he.proto⟩
   · -- create
-    simp only [a2dOf] at ha
     have hw0 : WFObj (⟨p, true, []⟩ : MObj) := fun kp hkp => by cases hkp
-    obtain ⟨he, hw⟩ := defineList_evolves l ⟨p, true, []⟩ hw0 ha
+    obtain ⟨he, hw⟩ := defineList_evolves l ⟨p, true, []⟩ hw0
     have core : (∀ q : Nat, p = some q → q < h.length) →
         HEvolves h (if (defineList ⟨p, true, []⟩ l).2 = true then (h, Outcome.typeError, ([] : List Call))
           else (h ++ [(defineList ⟨p, true, []⟩ l).1], Outcome.ok, [])).1 ∧
@@ -2086,64 +2102,35 @@ def heapAfter (h : MHeap) : List Op → MHeap
   | [] => h
   | op :: ops => heapAfter (step h op).1 ops
 
-/-- no step of the history is in `acc_to_data_keeps_accessor` -/
-def a2dFree (h : MHeap) : List Op → Prop
-  | [] => True
-  | op :: ops => a2dOf h op = false ∧ a2dFree (step h op).1 ops
-
-/-- the driver's region list determines `a2dFree` -/
-theorem a2dOf_of_devStep (h : MHeap) (op : Op) (h' : MHeap)
-    (hn : "acc_to_data_keeps_accessor" ∉ devStep h op h') : a2dOf h op = false := by
-  rcases op with ⟨s, a, n, v⟩ | ⟨s, a, n⟩ | ⟨a, n, d⟩ | ⟨a, l⟩ | ⟨p, l⟩ | ⟨a⟩ | ⟨a⟩ | ⟨a⟩ <;> try rfl
-  · simp only [devStep, List.mem_append, not_or] at hn
-    simp only [a2dOf]
-    cases ho : h[a]? <;> cases hd : OttoVerif.C07.toPropertyDescriptor d <;> simp_all
-  · simp only [devStep, List.mem_append, not_or] at hn
-    simp only [a2dOf]
-    cases ho : h[a]? <;> simp_all
-  · simp only [devStep, List.mem_append, not_or] at hn
-    simp only [a2dOf]
-    simp_all
-
-theorem a2dFree_of_devRun : ∀ (ops : List Op) (h : MHeap),
-    "acc_to_data_keeps_accessor" ∉ devRun h ops → a2dFree h ops := by
-  intro ops
-  induction ops with
-  | nil => intro h _; trivial
-  | cons op ops ih =>
-    intro h hn
-    simp only [devRun, List.mem_append, not_or] at hn
-    exact ⟨a2dOf_of_devStep h op _ hn.1, ih _ hn.2⟩
-
 /-- **all histories**: every object present at the start evolves in an allowed way through any
-    finite history that avoids `acc_to_data_keeps_accessor`, whatever other regions it passes through -/
-theorem history_evolves : ∀ (ops : List Op) (h : MHeap), Inv h → a2dFree h ops →
+    finite history – unconditionally -/
+theorem history_evolves : ∀ (ops : List Op) (h : MHeap), Inv h →
     HEvolves h (heapAfter h ops) ∧ Inv (heapAfter h ops) := by
   intro ops
   induction ops with
-  | nil => intro h hi _; exact ⟨HEvolves.refl h, hi⟩
+  | nil => intro h hi; exact ⟨HEvolves.refl h, hi⟩
   | cons op ops ih =>
-    intro h hi ha
-    obtain ⟨h1, i1⟩ := step_evolves h op hi ha.1
-    obtain ⟨h2, i2⟩ := ih _ i1 ha.2
+    intro h hi
+    obtain ⟨h1, i1⟩ := step_evolves h op hi
+    obtain ⟨h2, i2⟩ := ih _ i1
     exact ⟨h1.trans h2, i2⟩
 
 /-- **inv_nonextensible_no_growth**: a non-extensible object stays non-extensible and never gains a property -/
-theorem inv_nonextensible_no_growth (ops : List Op) (h : MHeap) (hi : Inv h) (ha : a2dFree h ops)
+theorem inv_nonextensible_no_growth (ops : List Op) (h : MHeap) (hi : Inv h)
     (a : Nat) (o : MObj) (ho : h[a]? = some o) (hne : o.ext = false) :
     ∃ o', (heapAfter h ops)[a]? = some o' ∧ o'.ext = false ∧ ∀ k, k ∈ akeys o'.props → k ∈ akeys o.props := by
-  obtain ⟨o', ho', he⟩ := (history_evolves ops h hi ha).1 a o ho
+  obtain ⟨o', ho', he⟩ := (history_evolves ops h hi).1 a o ho
   exact ⟨o', ho', he.ext hne, he.noGrowth hne⟩
 
 /-- **inv_nonconfigurable_stable**: a non-configurable property is never deleted, never becomes configurable,
     keeps its enumerability and its kind (data / accessor); an accessor keeps its getter and setter -/
-theorem inv_nonconfigurable_stable (ops : List Op) (h : MHeap) (hi : Inv h) (ha : a2dFree h ops)
+theorem inv_nonconfigurable_stable (ops : List Op) (h : MHeap) (hi : Inv h)
     (a : Nat) (o : MObj) (n : Name) (prop : MProp) (ho : h[a]? = some o) (hl : alookup n o.props = some prop)
     (hc : prop.configurable = false) :
     ∃ o' p', (heapAfter h ops)[a]? = some o' ∧ alookup n o'.props = some p' ∧
       p'.configurable = false ∧ p'.enumerable = prop.enumerable ∧ isVal p'.value = isVal prop.value ∧
       (isVal prop.value = false → p'.value = prop.value) := by
-  obtain ⟨o', ho', he⟩ := (history_evolves ops h hi ha).1 a o ho
+  obtain ⟨o', ho', he⟩ := (history_evolves ops h hi).1 a o ho
   rw [configurable_tb] at hc
   obtain ⟨p', hl', hs⟩ := he.stable n prop hl hc
   rw [PStable_iff] at hs
@@ -2163,13 +2150,13 @@ theorem inv_nonconfigurable_stable (ops : List Op) (h : MHeap) (hi : Inv h) (ha 
 
 /-- **inv_nonwritable_stable**: the value of a non-writable, non-configurable data property never changes
     (and it never becomes writable again) -/
-theorem inv_nonwritable_stable (ops : List Op) (h : MHeap) (hi : Inv h) (ha : a2dFree h ops)
+theorem inv_nonwritable_stable (ops : List Op) (h : MHeap) (hi : Inv h)
     (a : Nat) (o : MObj) (n : Name) (v : Val) (m : Mode) (ho : h[a]? = some o)
     (hl : alookup n o.props = some ⟨.val v, m⟩)
     (hc : (MProp.mk (.val v) m).configurable = false) (hw : (MProp.mk (.val v) m).writable = false) :
     ∃ o' m', (heapAfter h ops)[a]? = some o' ∧ alookup n o'.props = some ⟨.val v, m'⟩ ∧
       (MProp.mk (.val v) m').writable = false ∧ (MProp.mk (.val v) m').configurable = false := by
-  obtain ⟨o', ho', he⟩ := (history_evolves ops h hi ha).1 a o ho
+  obtain ⟨o', ho', he⟩ := (history_evolves ops h hi).1 a o ho
   obtain ⟨w, e, c⟩ := m
   simp only [configurable_eq, writable_eq] at hc hw
   obtain ⟨p', hl', hs⟩ := he.stable n _ hl hc
@@ -2184,11 +2171,11 @@ theorem inv_nonwritable_stable (ops : List Op) (h : MHeap) (hi : Inv h) (ha : a2
 /-- **inv_order**: the property order of an object only ever changes by appending a new name at the
     end or removing a deleted name (order = order of first creation of the present keys), and no
     key ever occurs twice -/
-theorem inv_order (ops : List Op) (h : MHeap) (hi : Inv h) (ha : a2dFree h ops)
+theorem inv_order (ops : List Op) (h : MHeap) (hi : Inv h)
     (a : Nat) (o : MObj) (ho : h[a]? = some o) :
     ∃ o', (heapAfter h ops)[a]? = some o' ∧ KeyEvol (akeys o.props) (akeys o'.props) ∧
       ((akeys o.props).Nodup → (akeys o'.props).Nodup) := by
-  obtain ⟨o', ho', he⟩ := (history_evolves ops h hi ha).1 a o ho
+  obtain ⟨o', ho', he⟩ := (history_evolves ops h hi).1 a o ho
   exact ⟨o', ho', he.keys, he.keys.nodup⟩
 
 /-! ## freeze / seal / preventExtensions establish their predicates -/
@@ -2472,12 +2459,12 @@ theorem step_shape (h : MHeap) (op : Op) :
 /-- no object has a key twice -/
 def NodupHeap (h : MHeap) : Prop := ∀ (a : Nat) (o : MObj), h[a]? = some o → (akeys o.props).Nodup
 
-theorem step_nodup (h : MHeap) (op : Op) (hi : Inv h) (ha : a2dOf h op = false) (hn : NodupHeap h) :
+theorem step_nodup (h : MHeap) (op : Op) (hi : Inv h) (hn : NodupHeap h) :
     NodupHeap (step h op).1 := by
   intro a o' ho'
   by_cases hlt : a < h.length
   · have ho : h[a]? = some h[a] := List.getElem?_eq_getElem hlt
-    obtain ⟨o'', ho'', he⟩ := (step_evolves h op hi ha).1 a _ ho
+    obtain ⟨o'', ho'', he⟩ := (step_evolves h op hi).1 a _ ho
     rw [ho'] at ho''
     cases ho''
     exact he.keys.nodup (hn a _ ho)
@@ -2488,7 +2475,7 @@ theorem step_nodup (h : MHeap) (op : Op) (hi : Inv h) (ha : a2dOf h op = false) 
     · subst eop
       rw [e] at ho'
       have hw0 : WFObj (⟨p, true, []⟩ : MObj) := fun kp hkp => by cases hkp
-      have hev := (defineList_evolves l ⟨p, true, []⟩ hw0 (by simpa [a2dOf] using ha)).1
+      have hev := (defineList_evolves l ⟨p, true, []⟩ hw0).1
       rw [List.getElem?_append_right hge] at ho'
       cases hd : a - h.length with
       | zero =>
@@ -2499,18 +2486,18 @@ theorem step_nodup (h : MHeap) (op : Op) (hi : Inv h) (ha : a2dOf h op = false) 
       | succ k => rw [hd] at ho'; simp at ho'
 
 /-- **no key twice, ever**: every object of every heap reachable from the empty heap has pairwise
-    distinct keys (outside `acc_to_data_keeps_accessor`) -/
-theorem history_nodup : ∀ (ops : List Op) (h : MHeap), Inv h → a2dFree h ops → NodupHeap h →
+    distinct keys -/
+theorem history_nodup : ∀ (ops : List Op) (h : MHeap), Inv h → NodupHeap h →
     NodupHeap (heapAfter h ops) := by
   intro ops
   induction ops with
-  | nil => intro h _ _ hn; exact hn
+  | nil => intro h _ hn; exact hn
   | cons op ops ih =>
-    intro h hi ha hn
-    exact ih _ (step_evolves h op hi ha.1).2 ha.2 (step_nodup h op hi ha.1 hn)
+    intro h hi hn
+    exact ih _ (step_evolves h op hi).2 (step_nodup h op hi hn)
 
-theorem nodup_from_empty (ops : List Op) (ha : a2dFree [] ops) : NodupHeap (heapAfter [] ops) :=
-  history_nodup ops [] inv_nil ha (fun a o h => by simp at h)
+theorem nodup_from_empty (ops : List Op) : NodupHeap (heapAfter [] ops) :=
+  history_nodup ops [] inv_nil (fun a o h => by simp at h)
 
 /-! ## Non-vacuity of the hypotheses -/
 
@@ -2535,7 +2522,7 @@ example : WFHeap hNV := by
     · subst h; exact ⟨by decide, by decide, rfl⟩
   | succ a => simp [hNV] at h
 
-/-- and a defineProperty step on it lies outside every region: the hypotheses of
+/-- and a defineProperty step on it is (trivially) outside the only region left: the hypotheses of
     `step_defineProperty_refines` are met by a non-trivial instance. -/
 example : devStep hNV (.defn 0 0 (.obj ⟨some false, none, some false, some 5, .absent, .absent⟩))
     (step hNV (.defn 0 0 (.obj ⟨some false, none, some false, some 5, .absent, .absent⟩))).1 = [] := by decide
@@ -2560,50 +2547,40 @@ example : devRun [] hNV2 = [] := by decide
 example : run [] hNV2 = Spec.run [] hNV2 := history_refines hNV2 (by decide)
 example : ((run [] hNV2)[3]?).map (·.calls) = some [(1, 1, 5)] := by decide
 
-/-! ## Deviation witnesses (each region really deviates; kernel-checked, replayed on the real code) -/
+/-! ## Deviation witness of the one open region, and the former witnesses of the closed regions
+     (now equalities: the regions were closed by `fix:` commits, model = spec on them) -/
 
 def dE : Desc := ⟨none, none, none, none, .absent, .absent⟩
-
-/-- `o={}; o.a=1; Object.defineProperty(o,'a',{enumerable:false})` -/
-def wGeneric : List Op := [.create none [], .put false 0 0 4, .defn 0 0 (.obj { dE with e := some false })]
-example : run [] wGeneric ≠ Spec.run [] wGeneric := by decide
-example : devRun [] wGeneric = ["generic_loses_writable"] := by decide
-
-/-- `defineProperty(o,'a',{get:F0,configurable:true}); defineProperty(o,'a',{writable:true})` -/
-def wAccToData : List Op :=
-  [.create none [], .defn 0 0 (.obj { dE with c := some true, g := .fn 0 }), .defn 0 0 (.obj { dE with w := some true })]
-example : run [] wAccToData ≠ Spec.run [] wAccToData := by decide
-example : devRun [] wAccToData = ["acc_to_data_keeps_accessor"] := by decide
-
-/-- `defineProperties(o,{a:{value:1},b:{get:5}})` leaves `a` defined -/
-def wNotAtomic : List Op :=
-  [.create none [], .defs 0 [(0, .obj { dE with v := some 4 }), (1, .obj { dE with g := .bad })]]
-example : run [] wNotAtomic ≠ Spec.run [] wNotAtomic := by decide
-example : devRun [] wNotAtomic = ["defineProperties_not_atomic"] := by decide
-
-/-- `defineProperty(o,'a',{get:undefined})`: the former region `accessor_both_undefined` is closed by
-    fix f48e83f (fromPropertyDescriptor decides by the stored value) – model = spec, no region. -/
-def wBothUndef : List Op := [.create none [], .defn 0 0 (.obj { dE with g := .undef })]
-example : run [] wBothUndef = Spec.run [] wBothUndef := by decide
-example : devRun [] wBothUndef = [] := by decide
-
-/-- `p={a:1}; c=Object.create(p); c.a=2; for (k in c)`: the former region `forin_shadowed` is closed by
-    fix cb72f5e (for-in skips shadowed names) – model = spec, no region. -/
-def wForIn : List Op := [.create none [], .put false 0 0 4, .create (some 0) [], .put false 1 0 5]
-example : run [] wForIn = Spec.run [] wForIn := by decide
-example : devRun [] wForIn = [] := by decide
 
 /-- `Object.preventExtensions(o); (function(){'use strict'; o.a=1})()` does not throw -/
 def wStrict : List Op := [.create none [], .preventExt 0, .put true 0 0 4]
 example : run [] wStrict ≠ Spec.run [] wStrict := by decide
 example : devRun [] wStrict = ["strict_ignored"] := by decide
 
-/-- the invariant theorems are not vacuous: `hNV2` avoids `acc_to_data_keeps_accessor`, object 0 holds
-    after step 1 a property that later becomes non-configurable and non-writable, … -/
-example : a2dFree [] hNV2 := a2dFree_of_devRun hNV2 [] (by decide)
-example : Inv (heapAfter [] hNV2) := (history_evolves hNV2 [] inv_nil (a2dFree_of_devRun hNV2 [] (by decide))).2
-/-- … and a history that passes through `generic_loses_writable` (so `history_refines` does not
-    apply) is still covered by the invariants. -/
-example : a2dFree [] wGeneric := a2dFree_of_devRun wGeneric [] (by decide)
+/-- closed: `o={}; o.a=1; Object.defineProperty(o,'a',{enumerable:false})` keeps `a` writable -/
+def wGeneric : List Op := [.create none [], .put false 0 0 4, .defn 0 0 (.obj { dE with e := some false })]
+example : run [] wGeneric = Spec.run [] wGeneric := history_refines wGeneric (by decide)
+
+/-- closed: `defineProperty(o,'a',{get:F0,configurable:true}); defineProperty(o,'a',{writable:true})` gives a data property -/
+def wAccToData : List Op :=
+  [.create none [], .defn 0 0 (.obj { dE with c := some true, g := .fn 0 }), .defn 0 0 (.obj { dE with w := some true })]
+example : run [] wAccToData = Spec.run [] wAccToData := history_refines wAccToData (by decide)
+
+/-- closed: `defineProperties(o,{a:{value:1},b:{get:5}})` leaves `o` untouched -/
+def wNotAtomic : List Op :=
+  [.create none [], .defs 0 [(0, .obj { dE with v := some 4 }), (1, .obj { dE with g := .bad })]]
+example : run [] wNotAtomic = Spec.run [] wNotAtomic := history_refines wNotAtomic (by decide)
+
+/-- closed (f48e83f): `defineProperty(o,'a',{get:undefined})` reports get/set -/
+def wBothUndef : List Op := [.create none [], .defn 0 0 (.obj { dE with g := .undef })]
+example : run [] wBothUndef = Spec.run [] wBothUndef := history_refines wBothUndef (by decide)
+
+/-- closed (cb72f5e): `p={a:1}; c=Object.create(p); c.a=2; for (k in c)` visits `a` once -/
+def wForIn : List Op := [.create none [], .put false 0 0 4, .create (some 0) [], .put false 1 0 5]
+example : run [] wForIn = Spec.run [] wForIn := history_refines wForIn (by decide)
+
+/-- the invariant theorems need no region hypothesis at all: they also cover a history inside `strict_ignored` -/
+example : Inv (heapAfter [] wStrict) := (history_evolves wStrict [] inv_nil).2
+example : NodupHeap (heapAfter [] hNV2) := nodup_from_empty hNV2
 
 end OttoVerif.C07.Thm
